@@ -339,6 +339,28 @@ func (c *memConn) SetWriteDeadline(t time.Time) error {
 	return nil
 }
 
+// gatedBody is a request body stream whose bytes the harness holds back: Read blocks until the gate is closed
+// (create it inside the bubble, so that blocking on it is durable), then yields the payload once.
+type gatedBody struct {
+	gate    chan struct{}
+	payload []byte
+	off     int
+}
+
+func newGatedBody(payload string) *gatedBody {
+	return &gatedBody{gate: make(chan struct{}), payload: []byte(payload)}
+}
+
+func (b *gatedBody) Read(p []byte) (int, error) {
+	<-b.gate
+	if b.off >= len(b.payload) {
+		return 0, io.EOF
+	}
+	n := copy(p, b.payload[b.off:])
+	b.off += n
+	return n, nil
+}
+
 // --- server side
 
 type srvReq struct {
